@@ -22,7 +22,7 @@ META = {
     ),
     "floors": {
         "quick": {"evaluations": 200, "mon.enum": 70, "mon.enum_trees_logged": 600, "mon.input_binarize": 30, "mon.e2e": 40},
-        "thorough": {"evaluations": 3000, "mon.enum": 1500, "mon.enum_trees_logged": 50000, "mon.input_binarize": 300, "mon.e2e": 800},
+        "thorough": {"evaluations": 2500, "mon.enum": 500, "mon.enum_trees_logged": 30000, "mon.input_binarize": 300, "mon.e2e": 800},
     },
     "exhaustive": {"quick": True, "thorough": True},
     "space": {"quick": "all tree shapes of any arity with <=6 leaves (named / coloured variants), 48 end-to-end inputs up to 4+4 leaves with <=2 polytomies", "thorough": "all tree shapes of any arity with <=7 leaves, 1k end-to-end inputs up to 5+4 leaves with <=2 polytomies"},
